@@ -177,7 +177,7 @@ def gen_workload(tape):
         c["s"] = tape.choice(npool, "s")
         c["perturb"] = [1e-6, 1e-4, 0.004][tape.choice(3, "pert")] if mode == "perturb" else 0.0
         c["rsel"] = tape.choice(10 ** 6, "rsel")
-        c["rmode"] = tape.pick(["between", "between", "tiny", "large"], "rmode")
+        c["rmode"] = tape.pick(["between", "between", "tiny", "large", "huge"], "rmode")
         c["mi"] = tape.pick([60, 600, 3600, 10, 7200, 86400], "mi")
         c["mi_as"] = tape.pick(["number", "string", "timedelta"], "mi_as")
         c["md_as"] = tape.pick(["number", "km", "m"], "md_as")
@@ -299,6 +299,8 @@ def run_one(tape, only=None):
                 md = 1e-4
             elif c["rmode"] == "large":
                 md = 800.0
+            elif c["rmode"] == "huge":
+                md = 2500.0          # above the documented tunnel_limit of 1000 km
             else:
                 i = c["rsel"] % len(vals)
                 lo_v = vals[i]
